@@ -516,6 +516,7 @@ type ecdsaSig struct {
 	s    *big.Int
 	X    oracle.Pt
 	hash []byte
+	d    *big.Int // the secret key, where the key was not solved for as a point
 }
 
 // validECDSA builds a valid signature with a chosen nonce-point class and a chosen s (the key is solved for).
@@ -557,7 +558,7 @@ func validECDSA(r *rng, hash []byte, rX string, odd bool, s0 *big.Int, v int) (s
 			if x.Sign() == 0 {
 				continue
 			}
-			return ecdsaSig{R: R, s: s0, X: oracle.BaseMul(x), hash: hash}, true
+			return ecdsaSig{R: R, s: s0, X: oracle.BaseMul(x), hash: hash, d: x}, true
 		}
 	}
 	return sg, false
@@ -625,6 +626,9 @@ func runEcdsa(g *group, target *Case, hashLen int, v int, r *rng) (skipped bool)
 	}
 	if in["hash"] == "changedHead" && hashLen == 0 {
 		return true
+	}
+	if in["hash"] == "forInf" && hashLen != 32 {
+		return true // the digest is chosen as a scalar: 32 bytes
 	}
 	hash0 := r.bytes(hashLen)
 	odd := in["rPar"] == "odd"
@@ -724,6 +728,13 @@ func runEcdsa(g *group, target *Case, hashLen int, v int, r *rng) (skipped bool)
 		hash = append([]byte{}, hash0...)
 		pos := []int{32, hashLen - 1}[v%2]
 		hash[pos] ^= 1 << uint(v%8)
+	case "forInf":
+		// e = -r*d: the verifier's e*G + r*X is the point at infinity, which equals no nonce point - whatever s is
+		if sg.d == nil {
+			addHarness("ecdsaverify forInf: the secret key is not known for this nonce class")
+			return
+		}
+		hash = b32(negN(mulN(new(big.Int).Mod(sg.R.X, oracle.N), sg.d)))
 	}
 	X := sg.X
 	if in["pub"] == "other" {
@@ -1398,6 +1409,9 @@ func main() {
 					l := lens[(extra+3)%len(lens)]
 					if (g.inp["hash"] == "changedTail" && l <= 32) || (g.inp["hash"] == "changedHead" && l == 0) {
 						l = 64
+					}
+					if g.inp["hash"] == "forInf" {
+						l = 32
 					}
 					r := newRng(fmt.Sprintf("%d|%s|extra|%d", *seed, j.id, extra))
 					run(g, missing, l, v, r)
